@@ -343,3 +343,58 @@ theorem count_le_sumSqResiduals (P g : E → E) (mu : ℝ) {eps : ℝ} (heps : 0
     nlinarith
 
 end QM.C11
+
+/-! ## windows > 1: a potential that decreases by the window sum -/
+namespace QM.C11
+open QM.C10
+
+/-- weighted tail potential over the error values, most recent first: `m·e₁ + (m−1)·e₂ + …` -/
+def pot : Nat → List ℝ → ℝ
+  | 0, _ => 0
+  | _, [] => 0
+  | m + 1, e :: t => ((m : ℝ) + 1) * e + pot m t
+
+theorem pot_nonneg : ∀ (m : Nat) (r : List ℝ), (∀ v ∈ r, 0 ≤ v) → 0 ≤ pot m r
+  | 0, _, _ => by simp [pot]
+  | _ + 1, [], _ => by simp [pot]
+  | m + 1, e :: t, h => by
+    have h1 := pot_nonneg m t (fun v hv => h v (List.mem_cons_of_mem _ hv))
+    have h2 := h e (List.mem_cons_self ..)
+    simp only [pot]
+    positivity
+
+/-- `pot (m+1) r − pot m r` is the sum of the first `m+1` entries -/
+theorem pot_succ_sub : ∀ (m : Nat) (r : List ℝ), pot (m + 1) r = pot m r + lsum (r.take (m + 1))
+  | m, [] => by cases m <;> simp [pot, lsum]
+  | 0, e :: t => by simp [pot, lsum]
+  | m + 1, e :: t => by
+    have ih := pot_succ_sub m t
+    simp only [pot, List.take_succ_cons] at *
+    rw [ih, lsum_cons']
+    push_cast
+    ring
+
+theorem lsum_reverse' (l : List ℝ) : lsum l.reverse = lsum l := by
+  induction l with
+  | nil => rfl
+  | cons a l ih => rw [List.reverse_cons, lsum_append', ih, lsum_cons']; simp [lsum]; ring
+
+/-- the window sum as the sum of the first `n` entries of the reversed list -/
+theorem windowSum_eq_take_reverse (l : List ℝ) (n : Nat) : windowSum l n = lsum (l.reverse.take n) := by
+  unfold windowSum
+  rw [List.take_reverse, lsum_reverse']
+  congr 2
+  omega
+
+end QM.C11
+
+namespace QM.C11
+theorem pot_step (m : Nat) (e : ℝ) (r : List ℝ) :
+    pot m (e :: r) + lsum ((e :: r).take (m + 1)) = pot m r + ((m : ℝ) + 1) * e := by
+  cases m with
+  | zero => simp [pot, lsum]
+  | succ k =>
+    have h := pot_succ_sub k r
+    simp only [pot, List.take_succ_cons, lsum_cons'] at *
+    rw [h]; push_cast; ring
+end QM.C11
